@@ -1625,6 +1625,73 @@ func init() {
 	})
 }
 
+// leafListHelper: h is a helper introduced after the baseline that returns a
+// list of geometries and whose only appends put the parameter of a function
+// literal passed to walk into that list.
+func leafListHelper(h *ssa.Function) bool {
+	if h == nil || !isNewHelper(h) || len(h.Blocks) == 0 || h.Signature.Results().Len() != 1 {
+		return false
+	}
+	walkLits := map[*ssa.Function]bool{}
+	eachCall(h, func(pc ssa.CallInstruction) {
+		if strings.HasSuffix(calleeName(pc), ").walk") {
+			for _, a := range pc.Common().Args {
+				if mc, ok := a.(*ssa.MakeClosure); ok {
+					if fnc, ok := mc.Fn.(*ssa.Function); ok {
+						walkLits[fnc] = true
+					}
+				}
+			}
+		}
+	})
+	if len(walkLits) == 0 {
+		return false
+	}
+	good, appends := true, 0
+	for _, g := range append([]*ssa.Function{h}, allAnon(h)...) {
+		eachInstr(g, func(in ssa.Instruction) {
+			call, ok := in.(*ssa.Call)
+			if !ok {
+				return
+			}
+			b, ok := call.Call.Value.(*ssa.Builtin)
+			if !ok || b.Name() != "append" || len(call.Call.Args) != 2 {
+				return
+			}
+			appends++
+			if !walkLits[g] {
+				good = false
+				return
+			}
+			// the appended element is the literal's own parameter
+			sl, ok := call.Call.Args[1].(*ssa.Slice)
+			if !ok {
+				good = false
+				return
+			}
+			al, ok := sl.X.(*ssa.Alloc)
+			if !ok {
+				good = false
+				return
+			}
+			okEl := false
+			for _, r := range *al.Referrers() {
+				if ia, ok := r.(*ssa.IndexAddr); ok {
+					for _, rr := range *ia.Referrers() {
+						if st, ok := rr.(*ssa.Store); ok && st.Addr == ssa.Value(ia) && stripLoad(st.Val) == ssa.Value(g.Params[0]) {
+							okEl = true
+						}
+					}
+				}
+			}
+			if !okEl {
+				good = false
+			}
+		})
+	}
+	return good && appends > 0
+}
+
 func runC20OperandDim(c *Ctx) {
 	n := 0
 	for _, f := range c.P.Funcs {
@@ -1659,6 +1726,16 @@ func runC20OperandDim(c *Ctx) {
 				if isWalkLit && par == f.Params[0] {
 					c.OK(call.Pos(), fn, construct, "a leaf handed out by walk (never a collection)")
 					return
+				}
+			}
+			// an element of a list of leaves: a list returned by a helper introduced after the
+			// baseline that only ever appends the geometries walk hands to its function literal
+			if ld, ok := recv.(*ssa.UnOp); ok && ld.Op == token.MUL {
+				if ia, ok := ld.X.(*ssa.IndexAddr); ok {
+					if hc, ok := resolveCell(ia.X).(*ssa.Call); ok && leafListHelper(staticCallee(hc)) {
+						c.OK(call.Pos(), fn, construct, "an element of the leaf list built by "+calleeName(hc)+" (walk never hands out a collection)")
+						return
+					}
 				}
 			}
 			for _, g := range guardsAt(call) {
